@@ -40,7 +40,7 @@ func init() {
 		var doc map[string][]map[string]any
 		loadJSON(a.In, &doc)
 		registerExtras(a.Reg)
-		cc := Conc{a.Rand()}
+		cc := Conc{r: a.Rand()}
 		algs := []string{"ES256", "EdDSA", "PS256"}
 		if a.Tier == "thorough" {
 			algs = algNames
